@@ -72,8 +72,11 @@ func (r *reconciler[Obj]) reconcileLoop(ctx context.Context, health cell.Health)
 	for {
 		// Throttle a bit before reconciliation to allow for a bigger batch to arrive and
 		// for objects to settle.
-		if err := r.config.RateLimiter.Wait(ctx); err != nil {
-			return err
+		// The limiter is optional (see options.RateLimiter).
+		if r.config.RateLimiter != nil {
+			if err := r.config.RateLimiter.Wait(ctx); err != nil {
+				return err
+			}
 		}
 
 		prune := false
